@@ -19,7 +19,11 @@
 (*         coroutines) + _cond.wait_until under a VIRTUAL clock.  One      *)
 (*         thread, cooperative: the only nondeterminism is the program the *)
 (*         coroutines execute, which is chosen lazily (next command picked *)
-(*         in the action).                                                 *)
+(*         in the action).  The awaited operation ends with no value / a   *)
+(*         value / an exception / a dropped promise, and start() has to    *)
+(*         return / return that value / rethrow / throw                    *)
+(*         await_canceled_exception (CoFinish, StartReturn: MainOutcome);  *)
+(*         start() may be called again on the same object (StartAgain).    *)
 (* Part 5  properties (C12).                                               *)
 (*                                                                         *)
 (* A heap entry is [tp, id, k]: time point, identifier (0 = nullptr) and   *)
@@ -76,9 +80,13 @@ CONSTANTS Mode,        \* "manual" | "start"
           MaxOps,      \* bound on the number of calls (manual) / commands (start); 0 = unbounded (manual only)
           AllowRemove, \* manual: remove() calls are generated
           Interval,    \* manual: 0 = no interval generator, else its period (uses identifier IntervalId)
-          NC           \* start: number of coroutines (1 = the awaited one)
+          NC,          \* start: number of coroutines (1 = the awaited one)
+          MainRes,     \* start: how the awaited operation may end: subset of {"void", "val", "exc", "drop"}
+          MainVia,     \* start: how its end reaches start()'s callback: subset of {"direct", "queued"}
+          MaxRuns      \* start: start() calls on one scheduler object (2: the object is used again after start() returned)
 
 IntervalId == 9        \* &tag inside the interval() coroutine frame: distinct from every client identifier
+CB == -2               \* start: the callback_await coroutine of start() (:255/:273) as an entity of the coro_queue
 
 VARIABLES
     heap,      \* _scheduled, the array
@@ -98,9 +106,13 @@ VARIABLES
     stop,      \* stps.request_stop() happened (the awaited coroutine finished)
     wpc,       \* worker: "poll" | "wait" | "exit"
     wdl,       \* deadline the worker is about to wait_until
-    phase      \* "manual" | "pre" (awaitable started, worker not yet) | "run" | "returned" | "destroyed" | "hung"
+    phase,     \* "manual" | "pre" (awaitable started, worker not yet) | "run" | "returned" | "destroyed" | "hung"
+    mres,      \* how the awaited operation ended: "none" (not yet) | "void" (no value: co_await yields void) |
+               \*   "val" (a value) | "exc" (an exception) | "drop" (its promise was dropped: await_canceled_exception);
+               \*   this is what start() must hand to its caller: return / return the value / rethrow (:260,:278-279)
+    runs       \* start() calls on this scheduler object so far
 
-vars == <<heap, fut, nops, destroyed, now, gen, rq, run, cst, stop, wpc, wdl, phase>>
+vars == <<heap, fut, nops, destroyed, now, gen, rq, run, cst, stop, wpc, wdl, phase, mres, runs>>
 
 -----------------------------------------------------------------------------
 (* Parts 1-2 (the array, the libstdc++ heap algorithms, get_expired_lk, remove) live in SchedHeap.tla *)
@@ -129,7 +141,7 @@ AllTps == TPs \cup (IF Interval # 0 THEN {Interval} ELSE {}) \cup {Inf}
 Init ==
     /\ heap = <<>> /\ fut = [k \in Slots |-> FreeRec]
     /\ nops = 0 /\ destroyed = FALSE /\ now = 0 /\ gen = NoGen
-    /\ stop = FALSE /\ wpc = "poll" /\ wdl = 0
+    /\ stop = FALSE /\ wpc = "poll" /\ wdl = 0 /\ mres = "none" /\ runs = (IF Mode = "manual" THEN 0 ELSE 1)
     /\ IF Mode = "manual"
          THEN /\ rq = <<>> /\ run = -1 /\ cst = <<>> /\ phase = "manual"
          ELSE \* start(awt): the awaited coroutine 1 is started first (callback_await_alloc, :255/:273); it
@@ -140,7 +152,7 @@ Init ==
 (* Part 3: manual mode -- one client, one action per public call.  The last parameter(s) of every
    action are its OUTPUT (see the head comment). *)
 
-StartUnch == UNCHANGED <<now, rq, run, cst, stop, wpc, wdl, phase>>
+StartUnch == UNCHANGED <<now, rq, run, cst, stop, wpc, wdl, phase, mres, runs>>
 CanCall == Mode = "manual" /\ ~destroyed /\ (MaxOps = 0 \/ nops < MaxOps)
 (* counts the call.  NOTE: with MaxOps = 0 a call without effect (cancel() -> false, get_expired() ->
    time point) is a SELF LOOP of the state graph; the path cover used by the check (tools/fastcover.py)
@@ -269,20 +281,25 @@ ManualNext ==
    NextRun(q, st, ph): who runs after the current entity gave up control, q = queue, st = stop flag.
      - the worker coroutine resumed from `co_await pause()` with the stop flag set leaves its loop
        (:381,:389) and ends: it is skipped here (nothing observable happens);
+     - the callback_await coroutine of start() (CB, queued by an awaited future that was resolved by hand,
+       see CoFinish) gets its turn: fn keeps the result / std::current_exception() and calls
+       stps.request_stop() (:246-253 / :264-271; the worker's stop callback notifies under the lock,
+       :375-380), the coroutine ends: folded in here as well -- the stop flag is set from then on;
      - in phase "pre" an empty queue ends the temporary queue of callback_await_alloc; start()
        goes on to install_queue_and_call(worker.detach()) (:257-259): the worker runs. *)
 RECURSIVE NextRun(_, _, _)
 NextRun(q, st, ph) ==
     IF q = <<>>
-      THEN IF ph = "pre" THEN (IF st THEN [run |-> -1, rq |-> <<>>, phase |-> "run", wpc |-> "exit"]
-                                     ELSE [run |-> 0, rq |-> <<>>, phase |-> "run", wpc |-> "poll"])
-           ELSE [run |-> -1, rq |-> <<>>, phase |-> ph, wpc |-> wpc]
-      ELSE IF Head(q) = 0 /\ st THEN [NextRun(Tail(q), st, ph) EXCEPT !.wpc = "exit"]
-           ELSE [run |-> Head(q), rq |-> Tail(q), phase |-> ph, wpc |-> wpc]
+      THEN IF ph = "pre" THEN (IF st THEN [run |-> -1, rq |-> <<>>, phase |-> "run", wpc |-> "exit", stop |-> st]
+                                     ELSE [run |-> 0, rq |-> <<>>, phase |-> "run", wpc |-> "poll", stop |-> st])
+           ELSE [run |-> -1, rq |-> <<>>, phase |-> ph, wpc |-> wpc, stop |-> st]
+      ELSE IF Head(q) = CB THEN NextRun(Tail(q), TRUE, ph)
+           ELSE IF Head(q) = 0 /\ st THEN [NextRun(Tail(q), st, ph) EXCEPT !.wpc = "exit"]
+           ELSE [run |-> Head(q), rq |-> Tail(q), phase |-> ph, wpc |-> wpc, stop |-> st]
 
 Yield(q, st) ==
     LET n == NextRun(q, st, phase) IN
-    /\ run' = n.run /\ rq' = n.rq /\ phase' = n.phase /\ wpc' = n.wpc
+    /\ run' = n.run /\ rq' = n.rq /\ phase' = n.phase /\ wpc' = n.wpc /\ stop' = n.stop
 
 Running(c) == Mode = "start" /\ phase \in {"pre", "run"} /\ run = c
 CanCmd == nops < MaxOps
@@ -297,7 +314,7 @@ CoSleep(c, tp, id, ntf) ==
     /\ cst' = [cst EXCEPT ![c] = [st |-> "sleep", wst |-> "none", wat |-> 0]]
     /\ Yield(rq, stop)
     /\ nops' = nops + 1
-    /\ UNCHANGED <<destroyed, now, gen, stop, wdl>>
+    /\ UNCHANGED <<destroyed, now, gen, wdl, mres, runs>>
 
 (* bool r = sched.cancel(id[,e]): the sleeper is appended to the queue, the caller goes on *)
 CoCancel(c, id, x, k) ==
@@ -311,16 +328,31 @@ CoCancel(c, id, x, k) ==
                   /\ cst' = Woken(cst, fut[r.k].co, x, now)
              ELSE UNCHANGED <<rq, cst>>
     /\ nops' = nops + 1
-    /\ UNCHANGED <<destroyed, now, gen, run, stop, wpc, wdl, phase>>
+    /\ UNCHANGED <<destroyed, now, gen, run, stop, wpc, wdl, phase, mres, runs>>
 
-(* co_return; for the awaited coroutine (1) the callback of start() runs at once (symmetric transfer
-   to the awaiting callback_await coroutine, async.h:229-241) and calls stps.request_stop() (:252,:270) *)
-CoFinish(c) ==
+(* The coroutine ends.  c >= 2: co_return.  c = 1 is the AWAITED OPERATION of start(awt): it ends in one of
+   the ways MainRes allows -- r = "void": co_await awt yields void; "val": it yields a value (start<non-void>,
+   :262-279); "exc": it throws (the coroutine ends with an exception / the promise is resolved with one);
+   "drop": the promise of the awaited future is dropped (await_canceled_exception) -- and the callback of
+   start() (fn, :246-253 / :264-271: keeps the value or std::current_exception(), then stps.request_stop())
+   learns it
+     via = "direct": at once, by symmetric transfer to the awaiting callback_await coroutine (awt is the
+            async<T> coroutine itself or a future<T> fed by it: async.h:221-234);
+     via = "queued": the coroutine holds the promise<T> of the awaited future<T> and resolves / drops it by
+            hand, discarding the suspend_point: the callback_await coroutine (CB) is appended to the
+            coro_queue (suspend_point.h:130-135) and stop is requested only when CB gets its turn (NextRun);
+            the worker may poll and other coroutines may run in between.  Before the worker started
+            (phase "pre") nothing awaits the future yet: start() finds it ready, the same as "direct". *)
+MainEnd(r, via) == r \in MainRes /\ via \in MainVia /\ (r = "drop" => via = "queued")
+CoFinish(c, r, via) ==
     /\ Running(c) /\ c >= 1
+    /\ IF c = 1 THEN MainEnd(r, via) ELSE (r = "void" /\ via = "direct")
     /\ cst' = [cst EXCEPT ![c] = [st |-> "done", wst |-> "none", wat |-> 0]]
-    /\ stop' = (stop \/ c = 1)
-    /\ Yield(rq, stop \/ c = 1)
-    /\ UNCHANGED <<heap, fut, nops, destroyed, now, gen, wdl>>
+    /\ mres' = (IF c = 1 THEN r ELSE mres)
+    /\ LET deferred == c = 1 /\ via = "queued" /\ phase = "run"
+           st == stop \/ (c = 1 /\ ~deferred) IN
+        Yield(IF deferred THEN Append(rq, CB) ELSE rq, st)
+    /\ UNCHANGED <<heap, fut, nops, destroyed, now, gen, wdl, runs>>
 
 (* one turn of worker_coro<false> after `co_await pause()` returned, scheduler.h:388-411:
    lock; now = system_clock::now(); get_expired_lk(now);
@@ -339,9 +371,9 @@ WorkerPoll(k) ==
                   /\ UNCHANGED wdl
              ELSE /\ UNCHANGED cst
                   /\ IF rq = <<>>
-                       THEN /\ wpc' = "wait" /\ wdl' = r.next /\ UNCHANGED <<run, rq, phase>>
+                       THEN /\ wpc' = "wait" /\ wdl' = r.next /\ UNCHANGED <<run, rq, phase, stop>>
                        ELSE /\ Yield(Append(rq, 0), stop) /\ UNCHANGED wdl
-    /\ UNCHANGED <<nops, destroyed, now, gen, stop>>
+    /\ UNCHANGED <<nops, destroyed, now, gen, mres, runs>>
 
 (* _cond.wait_until(lk, x), :407, under virtual time: nobody can notify (single thread), the wait
    ends at its deadline.  wait_until(time_point::max()) never ends: the thread hangs. *)
@@ -350,13 +382,26 @@ WorkerWait ==
     /\ IF wdl = Inf
          THEN /\ phase' = "hung" /\ UNCHANGED <<now, wpc>>
          ELSE /\ now' = (IF wdl > now THEN wdl ELSE now) /\ wpc' = "poll" /\ UNCHANGED phase
-    /\ UNCHANGED <<heap, fut, nops, destroyed, gen, rq, run, cst, stop, wdl>>
+    /\ UNCHANGED <<heap, fut, nops, destroyed, gen, rq, run, cst, stop, wdl, mres, runs>>
 
-(* the worker ended and the queue drained: install_queue_and_call returns, start() returns (:260,:279) *)
-StartReturn ==
+(* the worker ended and the queue drained: install_queue_and_call returns, start() ends (:260 / :278-279).
+   Output r: what start() does -- "void": returns; "val": returns the value the awaited operation yielded;
+   "exc": rethrows its exception; "drop": throws await_canceled_exception -- exactly how the operation ended *)
+StartReturn(r) ==
     /\ Mode = "start" /\ phase = "run" /\ run = -1
+    /\ r = mres
     /\ phase' = "returned"
-    /\ UNCHANGED <<heap, fut, nops, destroyed, now, gen, rq, run, cst, stop, wpc, wdl>>
+    /\ UNCHANGED <<heap, fut, nops, destroyed, now, gen, rq, run, cst, stop, wpc, wdl, mres, runs>>
+
+(* start(awt2) once more on the same object (":218 it is possible to start scheduler ..."; every start() has
+   its own stop source and worker coroutine, the array is shared): sleeps left pending by the previous run
+   stay scheduled -- their coroutines are still suspended -- and the new worker serves them together with
+   the new ones; the clock goes on; commands are counted on (MaxOps bounds both runs together) *)
+StartAgain ==
+    /\ Mode = "start" /\ phase = "returned" /\ runs < MaxRuns
+    /\ runs' = runs + 1 /\ mres' = "none" /\ stop' = FALSE /\ wpc' = "poll" /\ wdl' = 0
+    /\ rq' = <<>> /\ run' = 1 /\ cst' = [cst EXCEPT ![1] = NoWake] /\ phase' = "pre"
+    /\ UNCHANGED <<heap, fut, nops, destroyed, now, gen>>
 
 (* ~scheduler after start() returned: sleepers still pending are resumed (inline) with no-value *)
 DestroyAfterStart ==
@@ -366,22 +411,24 @@ DestroyAfterStart ==
     /\ heap' = <<>>
     /\ cst' = [c \in 1..NC |-> IF cst[c].st = "sleep" THEN [st |-> "done", wst |-> "canceled", wat |-> now]
                                                         ELSE cst[c]]
-    /\ UNCHANGED <<nops, now, gen, rq, run, stop, wpc, wdl>>
+    /\ UNCHANGED <<nops, now, gen, rq, run, stop, wpc, wdl, mres, runs>>
 
 (* start() is used again with a new scheduler: the state graph has no dead end *)
 Restart ==
     /\ Mode = "start" /\ phase = "destroyed"
     /\ nops' = 0 /\ destroyed' = FALSE /\ now' = 0 /\ stop' = FALSE /\ wpc' = "poll" /\ wdl' = 0
     /\ rq' = [i \in 1..(NC - 1) |-> i + 1] /\ run' = 1 /\ cst' = [c \in 1..NC |-> NoWake] /\ phase' = "pre"
+    /\ mres' = "none" /\ runs' = 1
     /\ UNCHANGED <<heap, fut, gen>>
 
 StartNext ==
     \/ \E c \in 1..NC, tp \in TPs, id \in Ids, ntf \in {0, 1} : CoSleep(c, tp, id, ntf)
     \/ \E c \in 1..NC, id \in CancelIds, x \in Excs, k \in Slots0 : CoCancel(c, id, x, k)
-    \/ \E c \in 1..NC : CoFinish(c)
+    \/ \E c \in 1..NC, r \in {"void", "val", "exc", "drop"}, via \in {"direct", "queued"} : CoFinish(c, r, via)
     \/ \E k \in Slots0 : WorkerPoll(k)
     \/ WorkerWait
-    \/ StartReturn
+    \/ \E r \in MainRes : StartReturn(r)
+    \/ StartAgain
     \/ DestroyAfterStart
     \/ Restart
 
@@ -521,7 +568,25 @@ ReturnsWhenFinished ==
     /\ (Mode = "start" /\ wpc = "exit") => stop
     /\ (phase = "run" /\ run = -1) => wpc = "exit"
 NoHang == phase # "hung"
+
 (* ... and it does return (and the scheduler can be destroyed) *)
 StartTerminates == Mode = "start" => []<>(phase = "destroyed")
+
+(* start() tells its caller exactly how the awaited operation ended: the operation has ended iff its result is
+   recorded; stop is requested only because it ended; a recorded result changes only when start() is called
+   again; while start() runs the result is never lost -- either stop was requested (fn has it) or the
+   callback_await coroutine is queued exactly once and will deliver it (StartReturn(r) has r = mres as its
+   output, the replay compares it with what the real start() returned / threw) *)
+CbCount == Cardinality({i \in 1..Len(rq) : rq[i] = CB})
+MainOutcome ==
+    Mode = "start" =>
+      /\ (mres # "none") <=> (cst[1].st = "done")
+      /\ stop => mres # "none"
+      /\ phase \in {"returned", "destroyed"} => mres \in MainRes
+      /\ CbCount <= 1 /\ run # CB
+      /\ CbCount = 1 => (mres # "none" /\ ~stop /\ phase = "run")
+      /\ (mres # "none" /\ phase \in {"pre", "run"}) => (stop \/ CbCount = 1)
+      /\ runs \in 1..MaxRuns
+ResultStable == [][(mres # "none" /\ mres' # mres) => (mres' = "none" /\ phase' = "pre")]_vars
 
 =============================================================================
